@@ -1,6 +1,8 @@
 import EventppVerif.CL.Machine
 import Driver.QDriver
 import Driver.UtilDriver
+import EventppVerif.Util.Wrappers
+import EventppVerif.Util.Removers
 /-
   Line-protocol driver: reads scripts on stdin, runs them on the Lean Model or Spec and prints
   canonical output lines.  The C++ harness (harness/seq.cpp) reads the same scripts, drives the
@@ -29,6 +31,8 @@ def parseCmd : List String → Option Cmd
   | ["move", d, s] => some (.moveAssign (nat! d) (nat! s))
   | ["swap", a, b] => some (.swap (nat! a) (nat! b))
   | ["setcounter", l, k] => some (.setCounter (nat! l) (nat! k))
+  | ["counted", l, cb, _] => some (.append (nat! l) (nat! cb))
+  | ["conditional", l, cb, _, _] => some (.append (nat! l) (nat! cb))
   | _ => none
 
 /-- split a token list on ";" -/
@@ -86,37 +90,91 @@ structure Script where
   nlists : Nat := 1
   beh : List BehEntry := []
   dos : List Cmd := []
+  /-- callbacks added through CounterRemover: (cb, trigger count) -/
+  counted : List (Nat × Int) := []
+  /-- callbacks added through ConditionalRemover: (cb, m, r): remove when arg % m == r -/
+  conditional : List (Nat × Nat × Nat) := []
+
+def int! (s : String) : Int := s.toInt?.getD 0
+
+/-- collect the wrapper declarations from every command of the script (top level and behaviours) -/
+def scanWrappers (sc : Script) (ts : List String) : Script :=
+  match ts with
+  | ["counted", _, cb, n] => { sc with counted := sc.counted ++ [(nat! cb, int! n)] }
+  | ["conditional", _, cb, m, r] => { sc with conditional := sc.conditional ++ [(nat! cb, nat! m, nat! r)] }
+  | _ => sc
+
+def wrapBeh (sc : Script) (inner : Beh) : Beh :=
+  let b1 := sc.counted.foldl (fun b p => Evp.Wrap.counterBeh p.1 p.2 b) inner
+  sc.conditional.foldl (fun b p => Evp.Wrap.condBeh p.1 (fun a => p.2.1 > 0 && a % p.2.1 == p.2.2) b) b1
 
 def stepBudget : Nat := 20000
 
+/-- Print events; the `remove` a CounterRemover / ConditionalRemover wrapper performs on itself is
+    internal to the library (the harness cannot see its result), so its `res` event is dropped:
+    it is the event right after a due call of a wrapped callback. `counts` = calls so far per
+    wrapped callback. -/
+def showEvs (sc : Script) (evs : List Ev) (counts : List (Nat × Nat)) : List String × List (Nat × Nat) := Id.run do
+  let mut out : List String := []
+  let mut cnt := counts
+  let mut dropNext := false
+  for e in evs do
+    match e with
+    | .call c =>
+      out := out ++ [showEv e]
+      dropNext := false
+      if !c.enum then
+        let k := ((cnt.find? (fun p => p.1 == c.cb)).map (·.2)).getD 0
+        match sc.counted.find? (fun p => p.1 == c.cb) with
+        | some p =>
+          if Evp.Wrap.counterDue p.2 k then dropNext := true
+        | none => pure ()
+        match sc.conditional.find? (fun p => p.1 == c.cb) with
+        | some p => if p.2.1 > 0 && c.arg % p.2.1 == p.2.2 then dropNext := true
+        | none => pure ()
+      -- call counts include enumerations (they count as calls of the callback id in the machine)
+      let k := ((cnt.find? (fun p => p.1 == c.cb)).map (·.2)).getD 0
+      cnt := (c.cb, k + 1) :: cnt.filter (fun p => p.1 != c.cb)
+    | .res _ =>
+      if dropNext then dropNext := false
+      else out := out ++ [showEv e]
+  return (out, cnt)
+
 def runModel (sc : Script) : List String := Id.run do
-  let beh := behOf sc.beh
+  let beh := wrapBeh sc (behOf sc.beh)
   let mut c : MCfg := { nlists := sc.nlists }
   let mut out : List String := []
+  let mut cnt : List (Nat × Nat) := []
   for cmd in sc.dos do
     let before := c.trace.length
     let (c', halted) := MCfg.runN beh stepBudget { c with stack := [.prog (.op cmd (fun _ => .ret true))] }
     c := { c' with stack := [] }
     let newEvs := (c.trace.take (c.trace.length - before)).reverse
-    out := out ++ newEvs.map showEv
+    let (ls, cnt') := showEvs sc newEvs cnt
+    cnt := cnt'
+    out := out ++ ls
     if !halted then out := out ++ ["fuel"]
     for l in List.range sc.nlists do
       let cl := c.lists l
       let ch := chainOf cl.heap c.fuel cl.head
       out := out ++ [s!"state {l} : {showEntries (ch.map (fun n => (n, (cl.heap n).cb)))}"]
       if cl.ub then out := out ++ [s!"ub {l}"]
+  out := out ++ [s!"wraps {c.wraps}"]
   return out
 
 def runSpec (sc : Script) : List String := Id.run do
-  let beh := behOf sc.beh
+  let beh := wrapBeh sc (behOf sc.beh)
   let mut c : SCfg := { nlists := sc.nlists }
   let mut out : List String := []
+  let mut cnt : List (Nat × Nat) := []
   for cmd in sc.dos do
     let before := c.trace.length
     let (c', halted) := SCfg.runN beh stepBudget { c with stack := [.prog (.op cmd (fun _ => .ret true))] }
     c := { c' with stack := [] }
     let newEvs := (c.trace.take (c.trace.length - before)).reverse
-    out := out ++ newEvs.map showEv
+    let (ls, cnt') := showEvs sc newEvs cnt
+    cnt := cnt'
+    out := out ++ ls
     if !halted then out := out ++ ["fuel"]
     for l in List.range sc.nlists do
       out := out ++ [s!"state {l} : {showEntries ((c.lists l).map (fun e => (e.id, e.cb)))}"]
@@ -127,12 +185,56 @@ def addLine (sc : Script) (line : String) : Script :=
   | "lists" :: n :: _ => { sc with nlists := nat! n }
   | "beh" :: cb :: nth :: v :: rest =>
     let cmds := splitSemi rest
+    let sc := cmds.foldl scanWrappers sc
     { sc with beh := sc.beh ++ [⟨nat! cb, if nth = "*" then none else some (nat! nth), v != "0", cmds⟩] }
   | "do" :: rest =>
+    let sc := scanWrappers sc rest
     match parseCmd rest with
     | some c => { sc with dos := sc.dos ++ [c] }
     | none => sc
   | _ => sc
+
+/-! ### mode `rem`: ScopedRemover scripts on Util/Removers.lean -/
+
+def parseROp : List String → Option Evp.Rem.ROp
+  | ["rnew", r, l] => some (.rnew (nat! r) (nat! l))
+  | ["rappend", r, cb] => some (.rappend (nat! r) (nat! cb))
+  | ["rprepend", r, cb] => some (.rprepend (nat! r) (nat! cb))
+  | ["rinsert", r, cb, h] => some (.rinsert (nat! r) (nat! cb) (nat! h))
+  | ["rremove", r, h] => some (.rremove (nat! r) (nat! h))
+  | ["rreset", r] => some (.rreset (nat! r))
+  | ["rtarget", r, l] => some (.rtarget (nat! r) (nat! l))
+  | ["rmovector", d, s] => some (.rmovector (nat! d) (nat! s))
+  | ["rmoveassign", d, s] => some (.rmoveassign (nat! d) (nat! s))
+  | ["rswap", a, b] => some (.rswap (nat! a) (nat! b))
+  | ["rdestroy", r] => some (.rdestroy (nat! r))
+  | ["append", l, cb] => some (.append (nat! l) (nat! cb))
+  | ["remove", l, h] => some (.remove (nat! l) (nat! h))
+  | _ => none
+
+def showROut : Evp.Rem.ROut → String
+  | .skip => "skip" | .unit => "unit" | .bool b => if b then "true" else "false" | .handle h => s!"h{h}"
+
+def remMain (lines : Array String) : IO Unit := do
+  let out ← IO.getStdout
+  let mut w : Evp.Rem.RW := {}
+  let mut nl := 1
+  for line in lines do
+    match toks line with
+    | "---" :: nm :: _ =>
+      out.putStrLn s!"--- {nm}"
+      w := {}
+    | "lists" :: n :: _ => nl := nat! n
+    | "do" :: rest =>
+      match parseROp rest with
+      | some op =>
+        let (w', o) := Evp.Rem.step w op
+        w := w'
+        out.putStrLn s!"ev res {showROut o}"
+        for l in List.range nl do
+          out.putStrLn (s!"state {l} : " ++ showEntries ((w.lists l).map (fun e => (e.id, e.cb)))).trimAsciiEnd.toString
+      | none => pure ()
+    | _ => pure ()
 
 partial def readAll (h : IO.FS.Stream) (acc : Array String) : IO (Array String) := do
   let line ← h.getLine
@@ -147,6 +249,9 @@ def main (args : List String) : IO Unit := do
     return
   if mode = "anyid" then
     UD.anyidMain lines
+    return
+  if mode = "rem" then
+    remMain lines
     return
   if mode = "anydata" then
     UD.anydataMain lines
